@@ -69,16 +69,6 @@ def bytes_cfg(n, emit=True, frags=FRAGMENTS):
             % ("TRUE" if emit else "FALSE", tla_set(frags), n))
 
 
-def bad_indexes(res):
-    bad = {}
-    with open(res.out_path, errors="replace") as fh:
-        for line in fh:
-            m = re.match(r'<<"BAD", "(\w+)", (\d+)>>', line)
-            if m:
-                bad.setdefault(int(m.group(2)), set()).add(m.group(1))
-    return bad
-
-
 def selftest(ctx):
     """Non-vacuity: TLC must find a violation for every Bug switch of the reference reader."""
     failed = []
@@ -193,12 +183,12 @@ def check(ctx):
     if not aborted:
         nrec = NMUT[ctx.tier]
         res = tlc(ctx, "imports", "Trace_Imports.tla", "Trace_Imports.cfg", files=[trace], workers=NCPU,
-                  timeout=2400, extra=["-continue"], expect_violation=True, name="trace")
-        ctx.tlc_states += res.distinct
-        ctx.tlc_transitions += max(res.generated - 1, 0)
+                  timeout=2400, name="trace")
+        if not res.ok:
+            raise NoVerdict("trace validation did not complete:\n%s" % (res.violation or "")[:3000])
         if res.distinct != nrec:
             raise NoVerdict("trace validation visited %d of %d records\n%s" % (res.distinct, nrec, res.violation))
-        bad = bad_indexes(res)
+        bad = bad_traces(res)
         if bad:
             recs = open(trace).read().splitlines()
             for idx, invs in sorted(bad.items()):
@@ -213,15 +203,13 @@ def check(ctx):
                     violations.append(dict(kind="trace-rejected:" + ",".join(judged), **{"class": text},
                                            what="TLC rejects the record of the real ReadImports on %r (%s)" % (text, ",".join(judged)),
                                            input=dict(text=text, bytes=rec["input"]), detail=rec))
-        elif not res.ok:
-            raise NoVerdict("trace validation failed without naming a record:\n%s" % res.violation)
 
     if counters.get("spec_vs_goparser_disagreements"):
         raise NoVerdict("specification disagrees with go/parser on %d generated inputs: spec bug\n%s"
                         % (counters["spec_vs_goparser_disagreements"], json.dumps(drift[:3])[:2000]))
 
     # smallest failing inputs first: they are the ones written to the replay files
-    violations.sort(key=lambda v: (v.get("kind", ""), "import" not in v.get("class", ""), len(v.get("class", "")), v.get("class", "")))
+    violations.sort(key=lambda v: (v.get("kind", ""), not ((v.get("detail") or {}).get("goparser_imports") if isinstance(v.get("detail"), dict) else None), len(v.get("class", "")), v.get("class", "")))
     coverage = dict(
         evaluations=tot["evals"], distinct_nontrivial=tot["nontriv"],
         rule=("valid files: every token sequence of the header grammar inside the bounds of the profiles %s is a state of MC_ImportsFiles "
